@@ -1350,7 +1350,7 @@ func (sc *serverConn) handleFrame(strm *Stream, fr *FrameHeader) error {
 		}
 
 		if priorityFrame, ok := fr.Body().(*Priority); ok && priorityFrame.Stream() == strm.ID() {
-			return NewGoAwayError(ProtocolError, "stream that depends on itself")
+			return NewResetStreamError(ProtocolError, "stream that depends on itself")
 		}
 	case FrameWindowUpdate:
 		if strm.State() == StreamStateIdle {
